@@ -20,6 +20,8 @@ class TC { @tracked public qubit q; public N tag; public N tag2; public construc
 class QH { public qubit q; public int id; public constructor(int i) -> QH { this.id = i; } public destructor() -> void { echo("~QH" + this.id); } }
 class TH { @tracked public qubit q; public int id; public constructor(int i) -> TH { this.id = i; } public destructor() -> void { echo("~TH" + this.id); } }
 class CN { public CN next; public QH held; public TH theld; public D plain; public int id; public constructor(int i) -> CN { this.id = i; this.next = null; this.held = null; this.theld = null; this.plain = null; } }
+class CX { public CX peer; public D extra; public Q qown; public constructor() -> CX { this.peer = null; this.extra = null; this.qown = null; } }
+class QS extends Q { public int extra = 1; public constructor() -> QS { super(); } }
 class J { public int k = 0; public constructor() -> J = default; public destructor() -> void { this.k = 1; this.k = 2; } }
 function mkqc(int i) -> QC { J j = new J(); return new QC(i); }
 function mktc(int i) -> TC { J j = new J(); return new TC(i); }
@@ -70,6 +72,13 @@ BODIES = {
     "cycle-owns-tracked-object": ["CN a = new CN(1);", "CN b = new CN(2);", "a.next = b;", "b.next = a;", "b.theld = new TH(8);", "x(b.theld.q);", "measure b.theld.q;", "a = null;", "b = null;", "echo(\"dropped\");", "echo(burst(2));", "echo(\"end\");"],
     "cycle-owns-plain-dtor-object": ["CN a = new CN(1);", "CN b = new CN(2);", "a.next = b;", "b.next = a;", "a.plain = new D(9);", "a = null;", "b = null;", "echo(\"dropped\");", "echo(burst(2));", "echo(\"end\");"],
     "self-cycle-owns-qubit-object": ["CN a = new CN(1);", "a.next = a;", "a.held = new QH(3);", "h(a.held.q);", "a = null;", "echo(burst(1));", "QH keep = new QH(4);", "echo(keep.id);"],
+    # an object referenced both by a live variable and by a dropped cycle: whether its destructor runs when the variable lets go depends on
+    # whether the cycle was collected in between
+    "object-shared-with-dropped-cycle": ["D d = new D(1);", "CX c1 = new CX();", "CX c2 = new CX();", "c1.peer = c2;", "c2.peer = c1;", "c1.extra = d;", "c1 = null;", "c2 = null;", "echo(burst(2));", "d = null;", "echo(\"d dropped\");"],
+    # a qubit handle copied out of an object that only a dropped cycle still owns: x(h) ... measure h must give 1 whenever the cycle is collected
+    "qubit-handle-outlives-cycle-owner": ["CX w = new CX();", "w.qown = new Q();", "w.peer = w;", "qubit hq = w.qown.q;", "w = null;", "x(hq);", "echo(burst(2));", "echo(measure hq);"],
+    # a subclass that merely inherits a qubit field, in a dropped cycle
+    "inherited-qubit-field-in-cycle": ["CX a = new CX();", "a.qown = new QS();", "a.peer = a;", "qubit hq = a.qown.q;", "x(hq);", "a = null;", "echo(burst(2));", "echo(measure hq);"],
     "pressure": ["echo(burst(18));", "N k = new N(9);", "echo(burst(18));", "echo(k.id);"],
     "pressure-args": ["echo(link(mk(burst(18)), mk(burst(18))));"],
     "list": ["N h = chain(5);", "echo(len(h));", "echo(burst(2));", "echo(len(h));", "h.next.next = null;", "echo(burst(2));", "echo(len(h));"],
